@@ -137,4 +137,271 @@ theorem tupleCompare_trans (a b c : List Int) (hab : a.length = b.length) (hbc :
         simp only [tupleCompare, Bool.and_eq_true, decide_eq_true_eq] at h1 h2 ⊢
         exact ⟨by omega, ih ys zs (by simpa using hab) (by simpa using hbc) h1.2 h2.2⟩
 
+/-! ### key queries (equals, min_key, max_key, nearest_key) and merging -/
+
+theorem keyLt_irrefl (a : Key) : keyLt a a = false := by
+  induction a with
+  | nil => simp [keyLt]
+  | cons x xs ih => simp [keyLt, ih]
+
+theorem keyLt_trans : ∀ (a b c : Key), keyLt a b = true → keyLt b c = true → keyLt a c = true
+  | [], _, _, h, _ => by simp [keyLt] at h
+  | _ :: _, [], _, h, _ => by simp [keyLt] at h
+  | _ :: _, _ :: _, [], _, h => by simp [keyLt] at h
+  | x :: xs, y :: ys, z :: zs, h1, h2 => by
+    simp only [keyLt] at h1 h2 ⊢
+    by_cases hxy : x < y
+    · by_cases hyz : y < z
+      · have : x < z := by omega
+        simp [this]
+      · by_cases hzy : z < y
+        · simp [hyz, hzy] at h2
+        · have : y = z := by omega
+          subst this; simp [hxy]
+    · by_cases hyx : y < x
+      · simp [hxy, hyx] at h1
+      · have : x = y := by omega
+        subst this
+        simp only [hxy, if_false] at h1
+        by_cases hxz : x < z
+        · simp [hxz]
+        · by_cases hzx : z < x
+          · simp [hxz, hzx] at h2
+          · simp only [hxz, hzx, if_false] at h2 ⊢
+            exact keyLt_trans xs ys zs h1 h2
+
+/-- for tuples of the same size the order is total -/
+theorem keyLt_total : ∀ (a b : Key), a.length = b.length → keyLt a b = false → keyLt b a = false → a = b
+  | [], [], _, _, _ => rfl
+  | [], _ :: _, h, _, _ => by simp at h
+  | _ :: _, [], h, _, _ => by simp at h
+  | x :: xs, y :: ys, hl, h1, h2 => by
+    simp only [keyLt] at h1 h2
+    by_cases hxy : x < y
+    · simp [hxy] at h1
+    · by_cases hyx : y < x
+      · simp [hyx] at h2
+      · have : x = y := by omega
+        subst this
+        simp only [hxy, if_false] at h1 h2
+        have := keyLt_total xs ys (by simpa using hl) h1 h2
+        rw [this]
+
+theorem find?_isSome_iff (h : Hist) (k : Key) : (h.find? k).isSome = true ↔ k ∈ h.keys := by
+  induction h with
+  | nil => simp [Hist.find?, Hist.keys]
+  | cons kv rest ih =>
+    obtain ⟨k', c⟩ := kv
+    simp only [Hist.find?, Hist.keys, List.map_cons, List.mem_cons]
+    by_cases e : k' = k
+    · simp [e]
+    · have e' : ¬ k = k' := fun h => e h.symm
+      simp only [e, if_false, e', false_or]
+      simpa [Hist.keys] using ih
+
+theorem find?_eq_some_get (h : Hist) (k : Key) (c : Nat) (hf : h.find? k = some c) : h.get k = c := by
+  induction h with
+  | nil => simp [Hist.find?] at hf
+  | cons kv rest ih =>
+    obtain ⟨k', c'⟩ := kv
+    simp only [Hist.find?, Hist.get] at hf ⊢
+    by_cases e : k' = k
+    · simp [e] at hf ⊢; exact hf
+    · simp only [e, if_false] at hf ⊢; exact ih hf
+
+/-- the fold of `equals` is a conjunction -/
+theorem equals_foldl (h o : Hist) (l : List (Key × Nat)) (d : Bool) :
+    l.foldl (equalsStep h o) d = (d && l.all fun v => h.find? v.1 == some (o.get v.1)) := by
+  induction l generalizing d with
+  | nil => simp
+  | cons v rest ih =>
+    simp only [List.foldl_cons, List.all_cons]
+    rw [ih]
+    unfold equalsStep
+    cases hf : h.find? v.1 with
+    | none => simp
+    | some c => simp [Bool.and_assoc]
+
+theorem find?_of_mem (h : Hist) (k : Key) (hk : k ∈ h.keys) : h.find? k = some (h.get k) := by
+  induction h with
+  | nil => simp [Hist.keys] at hk
+  | cons kv rest ih =>
+    obtain ⟨k', c⟩ := kv
+    simp only [Hist.find?, Hist.get]
+    by_cases e : k' = k
+    · simp [e]
+    · simp only [e, if_false]
+      apply ih
+      simp only [Hist.keys, List.map_cons, List.mem_cons] at hk
+      rcases hk with hk | hk
+      · exact absurd hk.symm e
+      · exact hk
+
+/-- a `foldl` that keeps the `lt`-smaller element: nothing that was seen lies below the result (only transitivity and
+    irreflexivity of `lt` are used, so the same lemma serves min_key (`lt` = tuple `<`) and max_key (`lt` = tuple `>`)) -/
+theorem foldl_least_inv (lt : Key → Key → Bool) (irr : ∀ a, lt a a = false)
+    (tr : ∀ a b c, lt a b = true → lt b c = true → lt a c = true)
+    (l : List (Key × Nat)) (m0 : Key) (seen : List Key) (h0 : ∀ k ∈ seen, lt k m0 = false) :
+    ∀ k ∈ seen ++ l.map (·.1), lt k (l.foldl (fun m v => if lt v.1 m then v.1 else m) m0) = false := by
+  induction l generalizing m0 seen with
+  | nil => simpa using h0
+  | cons v rest ih =>
+    simp only [List.foldl_cons, List.map_cons]
+    have key := ih (if lt v.1 m0 then v.1 else m0) (seen ++ [v.1]) (by
+      intro k hk
+      simp only [List.mem_append, List.mem_singleton] at hk
+      by_cases hv : lt v.1 m0 = true
+      · simp only [hv, if_true]
+        rcases hk with hk | hk
+        · cases hkv : lt k v.1 with
+          | false => rfl
+          | true => have := tr k v.1 m0 hkv hv; rw [h0 k hk] at this; exact absurd this (by simp)
+        · subst hk; exact irr _
+      · simp only [hv]
+        rcases hk with hk | hk
+        · simpa using h0 k hk
+        · subst hk; simpa using hv)
+    intro k hk
+    apply key
+    simp only [List.mem_append, List.mem_singleton, List.not_mem_nil, or_false] at hk ⊢
+    rcases hk with h | h | h
+    · exact Or.inl (Or.inl h)
+    · exact Or.inl (Or.inr h)
+    · exact Or.inr h
+
+theorem foldl_least_mem (lt : Key → Key → Bool) (l : List (Key × Nat)) (m0 : Key) :
+    l.foldl (fun m v => if lt v.1 m then v.1 else m) m0 = m0 ∨ l.foldl (fun m v => if lt v.1 m then v.1 else m) m0 ∈ l.map (·.1) := by
+  induction l generalizing m0 with
+  | nil => simp
+  | cons v rest ih =>
+    simp only [List.foldl_cons, List.map_cons, List.mem_cons]
+    rcases ih (if lt v.1 m0 then v.1 else m0) with h | h
+    · rw [h]
+      by_cases hv : lt v.1 m0 = true
+      · simp [hv]
+      · simp [hv]
+    · exact Or.inr (Or.inr h)
+
+/-- invariant of the `for_each` of nearest_key after the keys `seen` -/
+def NearInv (k : Key) (s : Bool × Key) (seen : List Key) : Prop :=
+  (s.1 = true → s.2 = k ∧ ∀ u ∈ seen, keyLt k u = true) ∧
+  (s.1 = false → s.2 ∈ seen ∧ keyLt k s.2 = false ∧ ∀ u ∈ seen, keyLt k u = false → keyLt s.2 u = false)
+
+theorem nearest_inv (k : Key) (l : List (Key × Nat)) (s : Bool × Key) (seen : List Key) (h0 : NearInv k s seen) :
+    NearInv k (l.foldl (nearestStep k) s) (seen ++ l.map (·.1)) := by
+  induction l generalizing s seen with
+  | nil => simpa using h0
+  | cons v rest ih =>
+    simp only [List.foldl_cons, List.map_cons]
+    have step : NearInv k (nearestStep k s v) (seen ++ [v.1]) := by
+      obtain ⟨once, r⟩ := s
+      obtain ⟨hT, hF⟩ := h0
+      simp only [nearestStep]
+      cases hkv : keyLt k v.1 with
+      | true =>
+        simp only [Bool.not_true, Bool.false_eq_true, if_false]
+        constructor
+        · intro ho
+          obtain ⟨h1, h2⟩ := hT ho
+          refine ⟨h1, ?_⟩
+          intro u hu
+          simp only [List.mem_append, List.mem_singleton] at hu
+          rcases hu with hu | hu
+          · exact h2 u hu
+          · subst hu; exact hkv
+        · intro ho
+          obtain ⟨h1, h2, h3⟩ := hF ho
+          refine ⟨by simp [h1], h2, ?_⟩
+          intro u hu hku
+          simp only [List.mem_append, List.mem_singleton] at hu
+          rcases hu with hu | hu
+          · exact h3 u hu hku
+          · subst hu; rw [hkv] at hku; exact absurd hku (by simp)
+      | false =>
+        simp only [Bool.not_false, if_true]
+        cases once with
+        | true =>
+          simp only [if_true]
+          obtain ⟨_, h2⟩ := hT rfl
+          constructor
+          · intro h; exact absurd h (by simp)
+          · intro _
+            refine ⟨by simp, hkv, ?_⟩
+            intro u hu hku
+            simp only [List.mem_append, List.mem_singleton] at hu
+            rcases hu with hu | hu
+            · rw [h2 u hu] at hku; exact absurd hku (by simp)
+            · subst hu; exact keyLt_irrefl _
+        | false =>
+          simp only [Bool.false_eq_true, if_false]
+          obtain ⟨h1, h2, h3⟩ := hF rfl
+          cases hrv : keyLt r v.1 with
+          | true =>
+            simp only [if_true]
+            constructor
+            · intro h; exact absurd h (by simp)
+            · intro _
+              refine ⟨by simp, hkv, ?_⟩
+              intro u hu hku
+              simp only [List.mem_append, List.mem_singleton] at hu
+              rcases hu with hu | hu
+              · cases hvu : keyLt v.1 u with
+                | false => rfl
+                | true => have := keyLt_trans r v.1 u hrv hvu; rw [h3 u hu hku] at this; exact absurd this (by simp)
+              · subst hu; exact keyLt_irrefl _
+          | false =>
+            simp only [Bool.false_eq_true, if_false]
+            constructor
+            · intro h; exact absurd h (by simp)
+            · intro _
+              refine ⟨by simp [h1], h2, ?_⟩
+              intro u hu hku
+              simp only [List.mem_append, List.mem_singleton] at hu
+              rcases hu with hu | hu
+              · exact h3 u hu hku
+              · subst hu; exact hrv
+    have := ih (nearestStep k s v) (seen ++ [v.1]) step
+    simpa [List.append_assoc] using this
+
+/-- merging adds, per key, everything `src` holds under that key -/
+theorem merge_get (dst src : Hist) (k : Key) :
+    (merge dst src).get k = dst.get k + ((src.filter fun kv => kv.1 = k).map (·.2)).sum := by
+  induction src generalizing dst with
+  | nil => simp [merge]
+  | cons kv rest ih =>
+    have e : merge dst (kv :: rest) = merge (dst.add kv.1 kv.2) rest := by simp [merge]
+    rw [e, ih, get_add]
+    by_cases hk : kv.1 = k
+    · simp [hk]; omega
+    · have hk' : ¬ k = kv.1 := fun h => hk h.symm
+      simp [hk, hk']
+
+theorem merge_mass (dst src : Hist) : (merge dst src).mass = dst.mass + src.mass := by
+  induction src generalizing dst with
+  | nil => simp [merge, Hist.mass]
+  | cons kv rest ih =>
+    have e : merge dst (kv :: rest) = merge (dst.add kv.1 kv.2) rest := by simp [merge]
+    rw [e, ih, mass_add]
+    simp [Hist.mass]; omega
+
+/-- in a histogram without repeated keys the entries under one key sum to `get` -/
+theorem sum_filter_key_eq_get (h : Hist) (hn : h.keys.Nodup) (k : Key) :
+    ((h.filter fun kv => kv.1 = k).map (·.2)).sum = h.get k := by
+  induction h with
+  | nil => simp [Hist.get]
+  | cons kv rest ih =>
+    obtain ⟨k', c⟩ := kv
+    simp only [Hist.keys, List.map_cons, List.nodup_cons] at hn
+    simp only [Hist.get, List.filter_cons]
+    by_cases e : k' = k
+    · subst e
+      simp only [decide_true, if_true, List.map_cons, List.sum_cons]
+      have : rest.filter (fun kv => decide (kv.1 = k')) = [] := by
+        apply List.filter_eq_nil_iff.mpr
+        intro x hx hxe
+        simp only [decide_eq_true_eq] at hxe
+        exact hn.1 (by rw [← hxe]; exact List.mem_map_of_mem hx)
+      simp [this]
+    · simp only [e, decide_false, if_false, Bool.false_eq_true]
+      exact ih hn.2
 end GilVerif.Lemmas.C19
